@@ -241,6 +241,7 @@ fn main() {
         "triage" => cmd_triage(&args),
         "scenario" => cmd_scenario(&args),
         "find" => cmd_find(&args),
+        "minimise" => cmd_minimise(&args),
         _ => {
             eprintln!("usage: raftsim check <ID> [--tier quick|thorough] [--runs N] | replay <file> | run --profile P --index I | determinism --profile P --runs N");
             2
@@ -407,6 +408,33 @@ fn cmd_replay(args: &BTreeMap<String, String>) -> i32 {
         }
     };
     let focus: &'static str = Box::leak(rf.property.clone().into_boxed_str());
+    if args.contains_key("verbose-last") {
+        // debugging aid: replay quietly, then the last action with sub-step tracing (pipe through head)
+        let mut w = World::new(rf.cluster.clone());
+        w.focus = Some(focus);
+        let n = rf.actions.len();
+        for (i, a) in rf.actions.iter().enumerate() {
+            if i + 1 == n {
+                for x in w.nodes.values().filter(|x| x.started) {
+                    eprintln!("  n{} {} {:?} t{} commit{} applied{} last{} conf {:?}/{:?} learners {:?}", x.id, if x.running() { "up" } else { "DOWN" }, x.obs.role, x.obs.term, x.obs.commit, x.obs.applied, x.obs.last_index, x.obs.conf.voters, x.obs.conf.outgoing, x.obs.conf.learners);
+                }
+                w.verbose = true;
+            }
+            let _ = w.apply(a);
+        }
+        for x in w.nodes.values().filter(|x| x.started) {
+            if let Some(raw) = x.raw.as_ref() {
+                let r = &raw.raft;
+                eprintln!("  end n{} {:?} t{} vote{} lead{} promotable {} elapsed {} rand_timeout {} commit{} applied{} last{} pending_conf_index {} conf {:?}", x.id, r.state, r.term, r.vote, r.leader_id, r.promotable(), r.election_elapsed, r.randomized_election_timeout(), r.raft_log.committed, r.raft_log.applied, r.raft_log.last_index(), r.pending_conf_index, r.prs().conf().to_conf_state());
+                let lo = r.raft_log.first_index();
+                let hi = r.raft_log.last_index();
+                if let Ok(es) = r.raft_log.slice(lo, hi + 1, None, raft::GetEntriesContext::empty(false)) {
+                    eprintln!("     log {:?}", es.iter().map(|e| (e.index, e.term, format!("{:?}", e.get_entry_type()), e.data.len())).collect::<Vec<_>>());
+                }
+            }
+        }
+        return 0;
+    }
     let (v, _w) = replay(&rf.cluster, &rf.actions, Some(focus));
     match v {
         Some(v) if v.check == rf.expected.check => {
@@ -799,4 +827,34 @@ fn cmd_find(args: &BTreeMap<String, String>) -> i32 {
     }
     println!("not found in {runs} runs");
     1
+}
+
+/// `raftsim minimise <replay file> --write <out> [--secs N]`: re-minimise a stored trace with the current monitors.
+fn cmd_minimise(args: &BTreeMap<String, String>) -> i32 {
+    let path = args.get("arg1").cloned().unwrap_or_default();
+    let out = args.get("write").cloned().unwrap_or_else(|| "/tmp/minimised.json".into());
+    let secs: u64 = args.get("secs").and_then(|s| s.parse().ok()).unwrap_or(120);
+    let mut rf: ReplayFile = match std::fs::read_to_string(&path).ok().and_then(|s| serde_json::from_str(&s).ok()) {
+        Some(r) => r,
+        None => {
+            eprintln!("harness error: cannot read {path}");
+            return 2;
+        }
+    };
+    let focus: &'static str = Box::leak(rf.property.clone().into_boxed_str());
+    let (v, _w) = replay(&rf.cluster, &rf.actions, Some(focus));
+    let v = match v {
+        Some(v) => v,
+        None => {
+            println!("no violation reproduced");
+            return 2;
+        }
+    };
+    let (min_trace, mv) = minimise::minimise(&rf.cluster, &rf.actions, &v, secs, Some(focus));
+    println!("{} -> {} actions: {} [{}] {}", rf.actions.len(), min_trace.len(), mv.check, mv.sig, mv.detail);
+    rf.minimised = true;
+    rf.actions = min_trace;
+    rf.expected = Expected { property: mv.prop.to_string(), check: mv.check.to_string(), step: mv.step, node: mv.node, sig: mv.sig.clone(), detail: mv.detail.clone() };
+    std::fs::write(&out, serde_json::to_string_pretty(&rf).unwrap()).unwrap();
+    0
 }
